@@ -501,6 +501,57 @@ def comp_ufunc(prop, tier, comp, work):
 
 
 # --------------------------------------------------------------------------------------------
+# R-KSIB (C13): sibling kernel entry points (CUDA, HIP) rebuild the output from (pointer, shape, dim),
+# re-apply the function to the operands and call the shared guarded body assign_result with
+# thread/block/block-size taken from the vendor builtins of the same meaning.
+# --------------------------------------------------------------------------------------------
+KERNELS = [
+    dict(name="nm_cuda_run_function", header="nmtools/array/eval/cuda/context.hpp"),
+    dict(name="nm_hip_run_function", header="nmtools/array/eval/hip/context.hpp"),
+]
+KS_WANT = {"thread_id": "threadIdx.x,0,0", "block_id": "blockIdx.x,0,0", "block_size": "blockDim.x,1,1"}
+
+def comp_ksib(prop, tier, comp, work):
+    t0 = time.time()
+    out = dict(broken=[], findings=[], units=0, functions=0, samples=[])
+    n = 0
+    stub = os.path.join(VERIF, "stubs")
+    for k in KERNELS:
+        tu = os.path.join(work, k["name"] + ".cpp"); open(tu, "w").write('#include "%s"\n' % k["header"])
+        # host-API calls of the vendor runtime are not declared by the stubs: front-end errors after the kernel template are expected here
+        cmd = [NMLINT, "--name-prefix", k["name"], tu, "--"] + BASE_FLAGS + ["-I" + stub, "-include", os.path.join(stub, "cuda_stub.hpp")]
+        p = subprocess.run(cmd, capture_output=True, text=True)
+        rows = [json.loads(l) for l in p.stdout.splitlines() if l.startswith('{"fn"')]
+        out["units"] += 1; out["cmd"] = " ".join(cmd)
+        if len(rows) != 1:
+            out["broken"].append("R-KSIB: kernel entry %s not found in %s (anchor vanished or header no longer parses)" % (k["name"], k["header"])); continue
+        r = rows[0]; out["functions"] += 1; n += 1
+        locs = {f["a"]: f["b"] for f in r["facts"] if f["k"] == "local"}
+        calls = [f for f in r["facts"] if f["k"] == "call" and f["a"].endswith("assign_result")]
+        stores = [f for f in r["facts"] if f["k"] == "assign" and ("$out" in f["a"])]
+        if len(calls) != 1:
+            out["findings"].append(finding("R-KSIB", prop, r, "body", "kernel entry does not call the shared per-thread body assign_result exactly once (%d calls)" % len(calls))); continue
+        pc = parse_call(calls[0]["b"])
+        args = pc[1] if pc else []
+        if len(args) != 5 or not all(a.startswith("%") for a in args):
+            out["findings"].append(finding("R-KSIB", prop, r, calls[0]["b"], "assign_result is not called with (output, result, thread_id, block_id, block_size) locals")); continue
+        o, res, th, bl, bs = [a[1:] for a in args]
+        if "create_mutable_array" not in locs.get(o, "") or "($out,$out_shape_ptr,$out_dim)" not in locs.get(o, ""):
+            out["findings"].append(finding("R-KSIB", prop, r, locs.get(o, ""), "output is not rebuilt from the (pointer, shape, dim) triple of the kernel arguments"))
+        if not re.search(r"apply\(\$fun,\$operands\)$", locs.get(res, "")):
+            out["findings"].append(finding("R-KSIB", prop, r, locs.get(res, ""), "result is not the function re-applied to the operands"))
+        for var, role in ((th, "thread_id"), (bl, "block_id"), (bs, "block_size")):
+            init = locs.get(var, "")
+            if not init.endswith("{{" + KS_WANT[role] + "}}"):
+                out["findings"].append(finding("R-KSIB", prop, r, init, "%s passed to assign_result is initialised from %s, expected {%s}" % (role, init, KS_WANT[role])))
+        for st in stores:
+            out["findings"].append(finding("R-KSIB", prop, r, st["a"], "kernel entry writes the output buffer outside the guarded body"))
+        out["samples"].append("R-KSIB %s: %s" % (k["name"], calls[0]["b"]))
+    out.update(instances={"R-KSIB": n}, evaluations=n, distinct_nontrivial=n - len(out["findings"]), wall_s=round(time.time() - t0, 2))
+    return out
+
+
+# --------------------------------------------------------------------------------------------
 # driver
 # --------------------------------------------------------------------------------------------
 def run(prop, tier, spec, jobs=16):
@@ -540,4 +591,4 @@ def comp_fwd_array(prop, tier, comp, work):
     return out
 
 
-RULES = {"R-FWD.array": comp_fwd_array, "R-FWD.functional": comp_fwd_functional, "R-UFUNC": comp_ufunc}
+RULES = {"R-FWD.array": comp_fwd_array, "R-FWD.functional": comp_fwd_functional, "R-UFUNC": comp_ufunc, "R-KSIB": comp_ksib}
